@@ -16,6 +16,7 @@ type gen struct {
 	cfg    caseCfg
 	maxOps int
 	nops   int
+	coldSlept bool // a slow cold start was already inserted in this case
 
 	ints                            []string          // internal extension names to register
 	subs                            map[string]string // events each extension will subscribe to
@@ -202,14 +203,10 @@ func (g *gen) next(w *world) []string {
 		if !blocked["rt.next"] && !g.rtHolding {
 			add(35, "rt", "next")
 		}
-		if g.family == "slowbody" {
-			if g.rtHolding && len(w.slow) == 0 {
-				add(60, "rt", "slowresponse", "cur", fmt.Sprint(2000+g.r.Intn(3000)), "rand")
-			}
-			if len(w.slow) > 0 {
-				add(25, "rt", "finish")
-				add(25, "sleep", fmt.Sprint(g.cfg.timeout+150))
-			}
+		if g.family == "slowbody" && g.rtHolding && len(w.slow) == 0 {
+			add(45, "rt", "slowresponse", "cur", fmt.Sprint(2000+g.r.Intn(3000)), "rand")
+			add(20, "rt", "slowresponse", "cur", fmt.Sprint(2000+g.r.Intn(3000)), "rand", "tied")
+			add(30, "rt", "slowerror", "cur", "Function.SlowOops")
 		}
 		if g.rtHolding {
 			sz := []int{0, 1, 10, 4096, 70000}[g.r.Intn(5)]
@@ -232,6 +229,11 @@ func (g *gen) next(w *world) []string {
 		if !g.everNext["rt"] {
 			add(fault, "rt", "initerror", "Runtime.InitBoom")
 		}
+	}
+	if g.family == "slowbody" && len(w.slow) > 0 {
+		// the rest of a slow upload may arrive whether or not the runtime process still exists
+		add(25, "rt", "finish")
+		add(25, "sleep", fmt.Sprint(g.cfg.timeout+150))
 	}
 	if g.family == "restore" && liveRt {
 		// snapshot protocol: restore poll, platform restore request, hook completion / error / timeout
@@ -263,6 +265,11 @@ func (g *gen) next(w *world) []string {
 			add(10, "sleep", "700")
 		}
 	}
+	if (g.family == "healthy" || g.family == "noext" || g.family == "sizes") && callers > 0 && liveRt && !g.everNext["rt"] && !g.coldSlept {
+		// a slow cold start: the runtime takes its time before its first next (the deadline it is then
+		// given must still be arrival + timeout)
+		add(12, "sleep", "350")
+	}
 	if g.family == "timeouts" || g.family == "chaos" {
 		if callers > 0 {
 			add(3, "sleep", fmt.Sprint(g.cfg.timeout+150))
@@ -284,6 +291,9 @@ func (g *gen) next(w *world) []string {
 
 // observe updates the generator's view from the canonical observation.
 func (g *gen) observe(ws []string, obs string) {
+	if ws[0] == "sleep" {
+		g.coldSlept = true
+	}
 	if ws[0] == "invoke" {
 		g.nextCaller++
 		g.invLeft--
